@@ -26,6 +26,7 @@ RULE = (
     "2000 (thorough) unregistered strings per converter class; target lists through set_target_lists and through a real "
     "PerceptionEvaluationConfig; non-trivial = registered name in a non-canonical case or under merging; distinct = (family, "
     "task class, merge, name, variant kind)"
+    " Later additions: attribute lists that hold registered label names; frame-level target lists; documented traffic-light tables; string-task twin converters."
 )
 ASSUMPTIONS = ["names are str", "the merge rule is truck,bus -> car and motorbike -> bicycle (statement)"]
 DECIDING = ["convert_label.checked", "convert_name.checked", "set_target_lists.checked", "C14.registered_names_enumerated", "C14.unregistered_checked", "C14.merge_checked", "C14.config_targets_checked", "C14.task_spelling_checked", "C14.frame_config_targets_checked"]
